@@ -1,9 +1,9 @@
 #!/bin/bash
 # usage: seed_try.sh <seed dir name e.g. C08-1> <check id>...   applies the seeded change to /repo, runs the checks, reverts
 s=$1; shift
-cd /repo && git diff --quiet || { echo "/repo not clean"; exit 2; }
+cd /repo && [ -z "$(git status --porcelain)" ] || { echo "/repo not clean"; exit 2; }
 git apply /verif/seeded/$s/patch.diff || exit 2
 for c in "$@"; do (cd /verif && ./check $c quick 2>&1 | grep -E "VIOLATION|^OK|KNOWN" | sed "s/^/[$s vs $c] /"); done
-git -C /repo checkout -- .
+git -C /repo checkout -- . && git -C /repo clean -fdq src static-metric proto
 # refresh the evidence files from the unchanged tree (evidence must never come from a mutated run)
 for c in "$@"; do (cd /verif && ./check $c quick >/dev/null 2>&1); done
